@@ -56,6 +56,16 @@ def sources(tier, seed, ctx):
         net = gen.random_netlist(rng, ni=rng.randint(1, 4), ng=rng.randint(1, 20))
         srcs.append({'k': 'eval', 'net': [net[0], net[1]], 'outs': gen.pick_outputs(rng, net[0], len(net[1])), 'variant': rng.choice(['plain', 'shuffle']), 'vs': rng.randrange(10**6)})
     ctx['gen_note'] = '; '.join(note)
+    # wide gates (arity 9 .. 12) over three inputs, every rotation of the operand list: whatever an n-ary operator does beyond
+    # a handful of operands, with the undefined input first, second or later
+    for t in ('XOR', 'NXOR', 'AND', 'OR', 'NAND', 'NOR'):
+        for arity in (9, 10, 12):
+            for rot in range(3):
+                ops = [1 + (j + rot) % 3 for j in range(arity)]
+                srcs.append({'k': 'eval', 'net': [3, [[t, ops], ['NOT', [4]]]], 'outs': [5, 4], 'variant': 'plain', 'vs': 2 * arity + rot})
+                if rot == 0:
+                    ops2 = [1, 2] + [3] * (arity - 2)        # the first two operands differ from all the others
+                    srcs.append({'k': 'eval', 'net': [3, [[t, ops2]]], 'outs': [4], 'variant': 'plain', 'vs': 2 * arity + 1})
     # ladders: one internal gate shared by every stage of a long chain (the explicit-stack evaluator pushes it again
     # at every stage), operand order both ways
     for op in ('AND', 'OR', 'XOR', 'GT', 'NAND'):
